@@ -18,6 +18,7 @@ import datetime as dt
 import math
 import random
 import struct
+import unicodedata
 import uuid as uuidlib
 
 from .core import derive_rng
@@ -96,7 +97,10 @@ AUDIO_ROOTS = [
     "/simA/aud/deeper/still",
 ]
 
-PATH_PARTS = ["x", "sub dir", "ünï", "a.b", "rec-01", "2024", "日本"]
+# "cafe\u0301" / "grabacio\u0308n" are spelled with combining characters
+# (NFD): a path is a sequence of code points, not of glyphs
+PATH_PARTS = ["x", "sub dir", "ünï", "a.b", "rec-01", "2024", "日本",
+              "cafe\u0301", "grabacio\u0308n", " lead", "trail "]
 
 STATES = ["assigned", "completed", "verified", "rejected"]
 
@@ -515,7 +519,8 @@ def join_path(root: str, rel: str) -> str:
 def gen_rel_path(rs) -> str:
     depth = rs.choice([0, 0, 1, 2, 3])
     parts = [rs.choice(PATH_PARTS) for _ in range(depth)]
-    stem = rs.choice(["rec", "ünï rec", "a b", "x.y", "日本", "0001"])
+    stem = rs.choice(["rec", "ünï rec", "a b", "x.y", "日本", "0001",
+                      "pa\u0301jaro", "Ω"])
     parts.append(f"{stem}_{rs.randint(0, 999)}.wav")
     return "/".join(parts)
 
@@ -565,6 +570,15 @@ def gen_world(struct_seed, value_seed, cfg) -> dict:
     for _ in range(cfg["n_tags"]):
         label = rs.choice(LABELS)
         value = gen_str(rv, cfg)
+        if tags and rv.random() < 0.2:
+            # a distinct tag that differs from an earlier one only by
+            # whitespace, case or Unicode normalisation form
+            label, base = rv.choice(tags)
+            value = rv.choice([
+                base + " ", " " + base, base.strip(), base.upper(),
+                unicodedata.normalize("NFD", base),
+                unicodedata.normalize("NFC", base), base + "\u0301",
+            ])
         if (label, value) in seen:
             value = value + f"#{len(tags)}"
         seen.add((label, value))
